@@ -68,7 +68,7 @@ CHECKS = {
             'C19_gate, C19_wf, C19_put_get, C19_put_frame, C19_list, C19_delete_active, C19_delete, C19_rename, C19_isolation are proved in Lean over the model of ManageSieveConnection.run, FilterState and the dict FilterSet. '
             'Tie: every reply of a real ManageSieveServer (incl. LISTSCRIPTS order and active mark, script bytes) is diffed with the model on all command-kind sequences of length 2 (thorough 3) before and after '
             'authentication and on random multi-connection two-user programs; an independent Python reference map and a before/after dump of all stores around unauthenticated script commands are the monitors.',
-            'Maildir backend (one script per user, SingleFilterSet): no model applies; monitor "what was acknowledged holds" (PUTSCRIPT OK then GETSCRIPT/LISTSCRIPTS, refusals change nothing, gate, isolation); the one-slot design is known finding D80. '
+            'Maildir backend (one script per user, SingleFilterSet): model SieveSingle with C19_single_put_get, C19_single_refused_unchanged, C19_single_reads, C19_single_no_ghosts, every reply diffed; monitor "what was acknowledged holds" (PUTSCRIPT OK then GETSCRIPT/LISTSCRIPTS, refusals change nothing, gate, isolation); the one-slot design is known finding D80. '
             'Trusted: as C05. The sieve compiler is an oracle (CHECKSCRIPT).',
             'DESIGN.md section 6 C19'),
     'C11': ('Lean 4 theorems over the namespace model (wildcard matcher, ListTree entries, create/delete/rename with object identities) + differential correspondence + EXAMINE-based existence monitor',
@@ -93,11 +93,11 @@ CHECKS = {
             'Trusted: Lean kernel, axioms propext/Classical.choice/Quot.sound, the harness. String matching (email package, re) is an oracle of the model; messages are plain ASCII so that "contains" is unambiguous.',
             'DESIGN.md section 6 C13'),
     'C18': ('Lean 4 round-trip theorems (quoted strings, modified UTF-7 for all Unicode scalar values) + L1 differential correspondence + spelling-equivalence monitor on the wire',
-            'C18_roundtrip_quoted (parse(ser v ++ rest) = (v, rest)), C18_roundtrip_number, C18_modutf7 (decode(encode s) = s for every list of scalar values), C18_encode_ascii, C18_framing (whatever the {n+} literals contain, the reader takes exactly the command), C18_astring_spelling (the atom, quoted and {n+} spellings of any value parse to the same value and rest, or are all refused over the length limit) are proved in Lean. '
-            'Tie: IMAPConnection.readline vs Framing.readCmd on hostile streams; AString.parse vs AStr.parse on spelled values and junk under both limits; QuotedString/String.build/modutf7_encode/decode '
+            'C18_roundtrip_quoted (parse(ser v ++ rest) = (v, rest)), C18_roundtrip_number, C18_modutf7 (decode(encode s) = s for every list of scalar values), C18_encode_ascii, C18_framing (whatever the {n+} literals contain, the reader takes exactly the command), C18_astring_spelling (the atom, quoted and {n+} spellings of any value parse to the same value and rest, or are all refused over the length limit), C18_zone_roundtrip / C18_zone_canonical (the zone of a date-time: written and read back as the same offset; an accepted zone other than -0000 is how its offset is written), C18_seqset_roundtrip (SequenceSet.parse reads back what __bytes__ writes and leaves exactly what follows) are proved in Lean. '
+            'Tie: IMAPConnection.readline vs Framing.readCmd on hostile streams; AString.parse vs AStr.parse on spelled values and junk under both limits; DateTime zones vs Zone.fmt/Zone.parse; SequenceSet.parse vs SeqText.parse on generated sets and junk; QuotedString/String.build/modutf7_encode/decode '
             'vs the Wire and ModUtf7 models on hostile values. Monitors: round trips of literals, astrings, numbers, sequence sets, flags, date-times through the real parsers; an independent RFC 3501 5.1.3 encoder; whole command '
             'programs replayed under random spellings (atom/quoted/{n}/{n+}, command-word case) must answer and leave state identically; LIST reports names that decode to the created names.',
-            'Trusted: as C13. The lenient utf-7 decoder of Python on non-canonical input is not modelled (one-sided correspondence). Parsers of numbers/sets/flags/dates have no Lean model yet (monitored only).',
+            'Trusted: as C13. The lenient utf-7 decoder of Python on non-canonical input is not modelled (one-sided correspondence). Flags and the date part of a date-time have no Lean model (monitored only).',
             'DESIGN.md section 6 C18'),
     'C07': ('Lean 4 theorem that every serialised response shape is accepted by an independent strict recogniser + twin-recogniser correspondence + output monitor',
             'C07_wellformed (every line built from atoms, String.build values and nested groups is accepted by Grammar.wf, by mutual induction with a fuel-independence lemma), C07_build_safe, C07_quoted_escape, C18_encode_ascii '
@@ -112,7 +112,7 @@ CHECKS = {
             'Trusted: as C13. Partial by construction: the email package, re and codecs are not modelled; the command-line parser itself has no Lean model yet (C06_parse_total is not claimed). Known findings D47, D48, D49.',
             'DESIGN.md section 6 C06'),
     'C20': ('Lean 4 invariants over a transition system of the read-write lock on a model of asyncio.Lock (any number of tasks, any schedule, cancellation anywhere) and of the lock-file lock + exhaustive schedule exploration of the real primitive',
-            'C20_no_deadlock (in every reachable state with an unfinished task some task can take a step), C20_terminates (every schedule is finite), C20_exclusion and C20_cancel_safe (reader counter = number of readers between acquire and release after cancelling any waiter) are proved for the RWLock model; C20_file_exclusion and C20_file_released for the FileLock model. '
+            'C20_thread_exclusion / C20_thread_no_deadlock / C20_thread_terminates (the threading twin the maildir backend runs, threads pre-empted between any two primitive mutex operations; the recorded acquisitions and releases of the real lock are replayed through the model), C20_no_deadlock (in every reachable state with an unfinished task some task can take a step), C20_terminates (every schedule is finite), C20_exclusion and C20_cancel_safe (reader counter = number of readers between acquire and release after cancelling any waiter) are proved for the RWLock model; C20_file_exclusion and C20_file_released for the FileLock model. '
             'Tie: pymap\'s real asyncio read-write lock under a deterministic scheduler; every step of every explored schedule (DFS over all schedules with at most one cancellation of all 2-task programs, thorough 3-task; random for 4) is replayed '
             'in the model and who-is-inside/waiting/finished plus the counter compared. Monitors: no overlap with a writer, drainable (no deadlock), usable and counter 0 afterwards; FileLock writers with yields, exceptions, cancellations, stale files.',
             'Trusted: Lean kernel, axioms propext/Classical.choice/Quot.sound, the harness. asyncio.Lock semantics (CPython 3.12) are modelled, validated by the correspondence, not proved; C20_no_deadlock is explored, not proved; threading twin not modelled; '
